@@ -1786,8 +1786,15 @@ class InventoryWorkingTree(WorkingTree, MutableInventoryTree):
         """
         # TODO: Work from given directory downwards
         inv = self.root_inventory
+        # Ids of the versioned directories that are directories on disk, all
+        # the way up to the root (whose parent id is None).  A versioned
+        # directory that was deleted or replaced by a file or a symlink is not
+        # searched, and neither is anything versioned below it: lstat() on
+        # "link/sub" follows "link", so we would list (and clean-tree would
+        # delete) files that live wherever the symlink points to.
+        searched = {None}
         for path, dir_entry in self.iter_entries_by_dir():
-            if dir_entry.kind != "directory":
+            if dir_entry.kind != "directory" or dir_entry.parent_id not in searched:
                 continue
             # mutter("search for unknowns in %r", path)
             dirabs = self.abspath(path)
@@ -1795,6 +1802,7 @@ class InventoryWorkingTree(WorkingTree, MutableInventoryTree):
                 # e.g. directory deleted
                 continue
 
+            searched.add(dir_entry.file_id)
             children = inv.get_children(dir_entry.file_id) or {}
             fl = []
             for subf in os.listdir(os.fsencode(dirabs)):
